@@ -47,6 +47,7 @@ type vMon struct {
 	toNsec      int64
 	clock0      int // number of clock readings consumed before the current call
 	callStartK  int // index of the harness's own clock reading taken just before the current call (-1: none)
+	hook        func() // called once, from inside the first delivery (a Stream that calls back in)
 }
 
 // expiry returns created+timeout of an instance as (sec, nsec), without multiplication.
@@ -116,6 +117,10 @@ func (m *vMon) ReassemblyComplete(g []*auparse.AuditMessage) {
 	vAssert(in != nil, "C01/delivered-something-not-pushed")
 	if in == nil {
 		return
+	}
+	if h := m.hook; h != nil {
+		m.hook = nil
+		defer h() // after this delivery has been recorded, still inside the callback
 	}
 	vAssert(!in.delivered, "C01/delivered-twice")
 	if m.inClose {
@@ -323,7 +328,20 @@ func VH_Reassembler() {
 	if sc := vParam("script", -1); sc >= 0 {
 		// a fixed, longer history: lower-case letter = SYSCALL record of sequence base+(letter-'a'),
 		// upper-case = its EOE, 'm' = Maintain; events that collect many records, interleaved
-		script := []string{"ab" + "aaaaaaaaaa" + "bb", "abc" + "aaaaaaaaa" + "bbbbbbbbb" + "A" + "cB", "aaaaaaaaaaaaaaaaaaaa", "ab" + "aaaaaaaaaa" + "B" + "bb" + "A"}[sc]
+		script := []string{"ab" + "aaaaaaaaaa" + "bb", "abc" + "aaaaaaaaa" + "bbbbbbbbb" + "A" + "cB", "aaaaaaaaaaaaaaaaaaaa", "ab" + "aaaaaaaaaa" + "B" + "bb" + "A",
+			// 4, 5: two batches of two events, the second one released from inside the first one's delivery
+			// (the Stream pushes the EOE of c, or calls Maintain, while a and b are being handed over)
+			"abcd" + "BD" + "A", "abcd" + "BDC" + "e" + "A"}[sc]
+		if sc == 4 {
+			m.hook = func() {
+				msg := &auparse.AuditMessage{RecordType: auparse.AUDIT_EOE, Sequence: m.base + 2}
+				m.notePush(msg, uint16(auparse.AUDIT_EOE), m.base+2)
+				r.PushMessage(msg)
+			}
+		}
+		if sc == 5 {
+			m.hook = func() { r.Maintain() }
+		}
 		for i := 0; i < len(script); i++ {
 			ch := script[i]
 			switch {
